@@ -41,7 +41,7 @@ func checkSource(src string, loc common.Location) (*checked, error) {
 	if err != nil {
 		return nil, fmt.Errorf("parse error: %v", err)
 	}
-	checker, err := sema.NewChecker(program, loc, nil, &sema.Config{AccessCheckMode: sema.AccessCheckModeStrict, AttachmentsEnabled: true})
+	checker, err := sema.NewChecker(program, loc, nil, &sema.Config{AccessCheckMode: sema.AccessCheckModeStrict})
 	if err != nil {
 		return nil, err
 	}
